@@ -21,10 +21,10 @@ ASSUMPTIONS = ["dense reference = checker's own matrix-product contraction of th
                "is second-to-first); if it returns, the value must be right"]
 
 BIN = ("add", "sub", "mul")
-SCAL_ADD = ("int", "float", "npfloat64", "npint", "npfloat32", "t0d", "t1", "complex")
-SCAL_MUL = ("int", "float", "npfloat64", "t0d", "t1", "complex")
+SCAL_ADD = ("int", "float", "npfloat64", "npint", "npfloat32", "t0d", "t1", "complex", "t0d_i64", "t0d_other")
+SCAL_MUL = ("int", "float", "npfloat64", "t0d", "t1", "complex", "t0d_i64", "t0d_other")
 SCAL_LEFT = ("int", "float", "complex")
-SCAL_DIV = ("int", "float", "t0d", "t1")
+SCAL_DIV = ("int", "float", "t0d", "t1", "t0d_i64", "t0d_other")
 
 
 @st.composite
@@ -189,8 +189,14 @@ def execute(case):
     else:
         s = case["s"]
         sv = gen.build_scalar(s, dt)
-        sc = gen.scalar_as_complex(s)
+        sc = gen.scalar_exact_value(s, dt)
         ck.label("scalar:" + s["kind"])
+        if not gen.is_dyadic(s) or (s["kind"] == "npfloat32" and not gen.is_dyadic(s)):
+            exact = False
+            ck.label("scalar_not_dyadic")
+        if s["kind"] == "npfloat32":
+            import numpy as _np
+            sc = float(_np.float32(s["value"]))
         if sc == 0:
             ck.label("scalar_zero")
         one = torch.ones_like(xa)
